@@ -37,7 +37,7 @@ impl SchedCfg {
 
 /// kinds that make sense as a concurrent client operation (everything except creating whole new models)
 pub fn client_kinds() -> Vec<K> {
-    ALL_KINDS.iter().copied().filter(|k| !matches!(k, K::MNew | K::ItNext | K::ItOpen)).collect()
+    ALL_KINDS.iter().copied().filter(|k| !matches!(k, K::MNew | K::ItNext | K::ItOpen | K::MDrop)).collect()
 }
 
 pub struct Prepared {
@@ -107,6 +107,9 @@ fn neighbourhood(view: &View, rng: &mut Rng) -> Vec<Element> {
 
 /// generate a scenario: run a seeded set-up history (managed, fault-free), then draw the clients' calls
 /// against the resulting model. Must be called inside an engine run as thread 0.
+/// marker in the list of forced kinds: the client repeats the first client's call with the same operands
+pub const TWIN: K = K::ItNext;
+
 pub fn prepare(seed: u64, n_clients: usize, ops_per_client: usize, forced: &[K], setup_ops: usize, max_nodes: usize, scripted_setup: Option<&[(u32, Op)]>) -> Prepared {
     let mut rng = Rng::new(seed ^ 0x5CE7_A710);
     let world = Arc::new(World::new());
@@ -152,7 +155,7 @@ pub fn prepare(seed: u64, n_clients: usize, ops_per_client: usize, forced: &[K],
         let focus = passthrough(|| neighbourhood(&view, &mut rng));
         let cprof = Profile {
             name: "clients",
-            weights: all_weights().into_iter().filter(|(k, _)| !matches!(k, K::MNew | K::ItNext | K::ItOpen | K::MDuplicate)).collect(),
+            weights: all_weights().into_iter().filter(|(k, _)| !matches!(k, K::MNew | K::ItNext | K::ItOpen | K::MDuplicate | K::MDrop)).collect(),
             stale_permille: 0,
             self_permille: 0,
             foreign_permille: 0,
@@ -167,7 +170,14 @@ pub fn prepare(seed: u64, n_clients: usize, ops_per_client: usize, forced: &[K],
                 let op = passthrough(|| {
                     let mut g = Gen { rng: &mut rng, world: &world, view: &view, prof: &cprof, max_nodes: max_nodes * 2, focus: Some(focus.clone()) };
                     let forced_k = if j == 0 { forced.get(c).copied() } else { None };
-                    match forced_k {
+                    if forced_k == Some(TWIN) && c > 0 && !clients.is_empty() {
+                        // two clients make the same call on the same operands (check-then-act races)
+                        let first: &Vec<(u32, Op)> = &clients[0];
+                        if let Some((_, o)) = first.first() {
+                            return o.clone();
+                        }
+                    }
+                    match forced_k.filter(|k| *k != TWIN) {
                         Some(k) => {
                             let mut op = None;
                             for _ in 0..6 {
